@@ -75,6 +75,7 @@ LEAN = {
     "v2000file": "Contracts.V2000File",
     "witness2": "Contracts.Witness2",
     "relabeltotal": "Contracts.RelabelTotal",
+    "readerpost": "Contracts.ReaderPost",
 }
 
 PROPS = {
@@ -84,7 +85,7 @@ PROPS = {
     "C02": dict(probes=["v3"], functions=CANON + SERIAL + PARSER, lean=["roundtrip", "layout", "parser", "canonicalize"], diff=["pipeline", "parser"], bounded=[("c02", None)]),
     "C03": dict(probes=["v3"], functions=CANON + SERIAL + PARSER, lean=["final", "roundtrip", "layout", "parser", "canonicalize", "finallabels"], diff=["pipeline", "parser"], bounded=[("pipeline", "c03")]),
     "C04": dict(probes=["v3"], functions=CANON, lean=["canonicalize"], diff=["pipeline"], bounded=[("pipeline", "c04")]),
-    "C05": dict(functions=CANON + SERIAL + V3000 + V2000, lean=["pipeline", "layout", "serialize", "reader", "v2000file", "fileiso", "witness2"], diff=["pipeline"], bounded=[("c05", None)]),
+    "C05": dict(functions=CANON + SERIAL + V3000 + V2000, lean=["pipeline", "layout", "serialize", "reader", "v2000file", "fileiso", "witness2", "readerpost"], diff=["pipeline"], bounded=[("c05", None)]),
     "C06": dict(functions=CANON + SERIAL + V3000 + V2000, lean=["final", "pipeline", "reader", "v3000", "v2000", "fileiso", "witness2"], diff=["pipeline", "io"], bounded=[("c06", None)]),
     "C07": dict(functions=V3000, lean=["reader", "v30line", "v3000", "bonds", "c07star", "c07starbonds"], diff=["io"], bounded=[("c07", None)]),
     "C08": dict(functions=V2000 + V3000 + CANON + SERIAL, lean=["final", "v2000", "reader", "v2000file", "bonds", "fileiso"], diff=["io"], bounded=[("c08", None)]),
@@ -110,8 +111,8 @@ TOP = {
     "C03": dict(level="proof", theorems=["Contracts.Final.C03_fixpoint", "Contracts.Final.C03_fixpoint_ex", "Contracts.RoundTrip.C03_pipeline", "Contracts.RoundTrip.C03_main", "Contracts.Parser.graph_from_tree_ok"],
                 note="both clauses proved under assumption V4 (ANTLR returns the tree of the grammar on the emitted string; bounded differential probe), BlissLawful, SetLawful; molecules are reader/parser output (MolOK, InvariantCodeOK)"),
     "C04": dict(level="proof", theorems=["Contracts.Canonicalize.C04_main"], note="under BlissLawful; requires that equal invariant codes imply equal identity attributes (true for reader/parser output)"),
-    "C05": dict(level="proof", theorems=["Contracts.Pipeline.C05_pipeline", "Contracts.Layout.Grammar.tucanSpec_in_grammar", "Contracts.Layout.tuples_layout", "Contracts.Layout.blocks_layout", "Contracts.Layout.formula_layout", "Contracts.V2000File.read_v2000_render", "Contracts.Witness2.C05_v2000_rendering"],
-                note="grammar = tucan.ebnf transcribed into Lean at character level; preconditions (symbols from the element table, positive mass/rad, no self-loop) are what the parser, the V3000 reader and (V2000File.read_v2000_render) the V2000 reader guarantee after fixes D3, D7, D8"),
+    "C05": dict(level="proof", theorems=["Contracts.Pipeline.C05_pipeline", "Contracts.Layout.Grammar.tucanSpec_in_grammar", "Contracts.Layout.tuples_layout", "Contracts.Layout.blocks_layout", "Contracts.Layout.formula_layout", "Contracts.V2000File.read_v2000_render", "Contracts.Witness2.C05_v2000_rendering", "Contracts.ReaderPost.graph_from_molfile_text_post", "Contracts.ReaderPost.C05_any_reader_output"],
+                note="grammar = tucan.ebnf transcribed into Lean at character level (checked against the file every run). The preconditions on the molecule (symbols from the element table, positive mass/rad, no self-loop) are proved as an unconditional postcondition of the reader: whenever graph_from_molfile_text returns a graph, for any text, V2000 or V3000, star atoms included, it satisfies them (ReaderPost.graph_from_molfile_text_post, after fixes D3, D7, D8), hence ReaderPost.C05_any_reader_output; parser output likewise (Final.parsed_ok, under V4)"),
     "C06": dict(level="proof", theorems=["Contracts.Final.C06_reader_text", "Contracts.Final.C06_reader", "Contracts.Final.C08_agree", "Contracts.Pipeline.C06_graph_half", "Contracts.Reader.splitlines_crlf", "Contracts.Reader.graph_from_molfile_text_dress_irrelevant", "Contracts.FileIso.C06_files", "Contracts.FileIso.C06_resonance", "Contracts.FileIso.C01_C06_files", "Contracts.FileIso.C01_C06_texts", "Contracts.Witness2.C06_v2000_renderings"],
                 note="two renderings that agree on the normalised identity data (element with D/T = H mass 2/3, mass, radical; 0 = unset) up to a bijection of the atom lines get one common string, both reads succeed: coordinates, bond orders and annotations, charges, headers, index values, foreign keywords, line endings (LF/CRLF mixtures) are free. File-level theorems: two star-free V3000 texts (FileIso.C01_C06_files, C06_files, C06_resonance), two V2000 renderings of abstract molecules with any encoding choices (Witness2.C06_v2000_renderings), V2000 vs V3000 of one molecule (C08). FileIso.C01_C06_v2000 / _v3000_v2000 generalise this over parsed line data and are intermediate only. Star-atom tables are outside the file-level theorems (C07Star covers their reading)"),
     "C07": dict(level="proof", theorems=["Contracts.Reader.graph_from_molfile_text_render_ok", "Contracts.Reader.fileMeaning_plain_graph", "Contracts.V3000._parse_atom_attributes_ok", "Contracts.V30Line.splice_phys", "Contracts.Bonds.graph_from_molfile_text_render_ok_bonds", "Contracts.C07Star.graph_from_molfile_text_render_star", "Contracts.C07Star.graph_from_molfile_text_render_star_bonds", "Contracts.C07Star.graph_from_molfile_text_render_star_reject", "Contracts.C07Star.keyword_order_text", "Contracts.C07Star.wf_of_format", "Contracts.C07Star._parse_atom_attributes_keyword_order"],
